@@ -188,7 +188,15 @@ def _concrete_comp(interp, node, fr, kind, gi, sub, acc):
         rec(gi + 1, s2)
   rec(0, sub)
   if kind == "set":
-    if any(is_symbolic(x) for x in out): interp.unsupported("set of symbolic values", node)
+    if any(is_symbolic(x) for x in out):
+      vals = [interp.narrow(x) for x in out]
+      shapes = [shape_of(v) for v in vals]
+      if shapes[0] is None or len(shapes[0].sorts()) != 1 or \
+          any(repr(sx) != repr(shapes[0]) for sx in shapes):
+        interp.unsupported("set of symbolic values", node)
+      res = V.SetOf(shapes[0]).build(V.SetOf(shapes[0]).leaves(set()))
+      for v in vals: res = res.add(v)
+      return res
     return set(out)
   if kind == "gen": return out        # a fully evaluated list stands for the generator
   return out
